@@ -231,48 +231,50 @@ Fixpoint fold_more (fuel : nat) (k : str) (mk : fexpr -> fexpr -> fexpr) (operan
            end
   end.
 
+(* hs_term = hs_parens | hs_missing | hs_cmp | hs_has, given the parser of the nested filter *)
+Definition p_term_with (inner : fparser fexpr) : fparser fexpr := fun i =>
+  match (match lit [40] i with
+         | Some (_, j) => match inner j with
+                          | Some (e, k) => match lit [41] k with Some (_, l) => Some (e, l) | None => None end
+                          | None => None
+                          end
+         | None => None
+         end) with
+  | Some r => Some r
+  | None =>
+    match (match keyword KW_NOT i with
+           | Some (_, j) => match p_path j with Some (p, k) => Some (FMissing p, k) | None => None end
+           | None => None
+           end) with
+    | Some r => Some r
+    | None =>
+      match (match p_path i with
+             | Some (p, j) => match p_cmpop j with
+                              | Some (op, k) => match p_val k with Some (v, l) => Some (FCmp op p v, l) | None => None end
+                              | None => None
+                              end
+             | None => None
+             end) with
+      | Some r => Some r
+      | None => match p_path i with Some (p, j) => Some (FHas p, j) | None => None end
+      end
+    end
+  end.
+(* hs_condAnd, hs_condOr *)
+Definition p_and_with (inner : fparser fexpr) : fparser fexpr := fun i =>
+  match p_term_with inner i with
+  | Some (e, j) => Some (fold_more (length (rest j)) KW_AND FAnd (p_term_with inner) e j)
+  | None => None
+  end.
+Definition p_or_with (inner : fparser fexpr) : fparser fexpr := fun i =>
+  match p_and_with inner i with
+  | Some (e, j) => Some (fold_more (length (rest j)) KW_OR FOr (p_and_with inner) e j)
+  | None => None
+  end.
 Fixpoint p_filter (fuel : nat) (i : inp) {struct fuel} : option (fexpr * inp) :=
   match fuel with
   | O => None
-  | S f =>
-      let p_term : fparser fexpr := fun i =>
-        (* hs_parens | hs_missing | hs_cmp | hs_has *)
-        match (match lit [40] i with
-               | Some (_, j) => match p_filter f j with
-                                | Some (e, k) => match lit [41] k with Some (_, l) => Some (e, l) | None => None end
-                                | None => None
-                                end
-               | None => None
-               end) with
-        | Some r => Some r
-        | None =>
-          match (match keyword KW_NOT i with
-                 | Some (_, j) => match p_path j with Some (p, k) => Some (FMissing p, k) | None => None end
-                 | None => None
-                 end) with
-          | Some r => Some r
-          | None =>
-            match (match p_path i with
-                   | Some (p, j) => match p_cmpop j with
-                                    | Some (op, k) => match p_val k with Some (v, l) => Some (FCmp op p v, l) | None => None end
-                                    | None => None
-                                    end
-                   | None => None
-                   end) with
-            | Some r => Some r
-            | None => match p_path i with Some (p, j) => Some (FHas p, j) | None => None end
-            end
-          end
-        end in
-      let p_and : fparser fexpr := fun i =>
-        match p_term i with
-        | Some (e, j) => Some (fold_more (length (rest j)) KW_AND FAnd p_term e j)
-        | None => None
-        end in
-      match p_and i with
-      | Some (e, j) => Some (fold_more (length (rest j)) KW_OR FOr p_and e j)
-      | None => None
-      end
+  | S f => p_or_with (fun j => p_filter f j) i
   end.
 
 (* parse_filter: parseAll=True *)
